@@ -88,6 +88,29 @@ def writeFloatCell (fmt : Nat → Bytes) (bits : Nat) : Bytes :=
 def writeFloat32Cell (fmt : Nat → Bytes) (bits : Nat) : Bytes :=
   if f32NonFinite bits then jsonNonFiniteText else fmt bits
 
+/-! ## BLOB and 128-bit decimal cells (query_arrow_json.go: blobText, decimalText) -/
+
+/-- the `c >= 32 && c <= 126 && c != '\\' && c != '\'' && c != '"'` test of blobText -/
+def blobPlain (c : Nat) : Bool := blobPrintLo ≤ c && c ≤ blobPrintHi && !blobExcluded.contains c
+
+/-- one byte of a BLOB: itself, or `\xHH` with the digits taken from `hexd` -/
+def blobOne (c : Nat) : Bytes :=
+  if blobPlain c then [c] else blobEscPrefix ++ [blobHexDigits.getD (c / 16) 0, blobHexDigits.getD (c % 16) 0]
+
+/-- `blobText`: DuckDB's text form of a BLOB -/
+def blobText (s : Bytes) : Bytes := s.flatMap blobOne
+
+/-- `decimalText(unscaled, scale)`: digits of |unscaled|, left-padded with zeros to scale+1 digits, decimal
+point inserted `scale` digits from the right (only when scale > 0), sign in front -/
+def decimalText (unscaled : Int) (scale : Nat) : Bytes :=
+  let d := natDigits unscaled.natAbs
+  let body :=
+    if scale > 0 then
+      let p := List.replicate (scale + 1 - d.length) 48 ++ d
+      p.take (p.length - scale) ++ 46 :: p.drop (p.length - scale)
+    else d
+  if unscaled < 0 then 45 :: body else body
+
 /-! ## the result-set cells the envelope models are stated over -/
 
 inductive Cell where
@@ -108,7 +131,7 @@ def writeCell (fmt : Nat → Bytes) (tsFmt : Int → Nat → Bytes) : Cell → B
   | .int v => writeInt v
   | .f64 bits => writeFloatCell fmt bits
   | .str s => writeJSONString s
-  | .bin s => writeJSONString s
+  | .bin s => writeJSONString (blobText s)
   | .ts s n => 34 :: (tsFmt s n ++ [34])
 
 /-! ## row loops and the governance row limit (implementation) -/
@@ -426,6 +449,23 @@ def jsonDecodeG (strict : Bool) (s : Bytes) : Option Bytes :=
 
 def jsonDecode (s : Bytes) : Option Bytes := jsonDecodeG true s
 def jsonDecodeRaw (s : Bytes) : Option Bytes := jsonDecodeG false s
+
+/-! ## SPEC: DuckDB's BLOB text form, read back (printable ASCII except `\` stands for itself, `\xHH` for a byte) -/
+
+def blobDecode : Bytes → Option Bytes
+  | [] => some []
+  | c :: r =>
+    if c = 92 then
+      match r with
+      | x :: a :: b :: r' =>
+        if x = 120 then
+          match hexVal a, hexVal b with
+          | some p, some q => (blobDecode r').map (fun t => (p * 16 + q) :: t)
+          | _, _ => none
+        else none
+      | _ => none
+    else if 32 ≤ c ∧ c ≤ 126 then (blobDecode r).map (fun t => c :: t)
+    else none
 
 /-! ## SPEC: JSON integer (RFC 8259 §6: `[ minus ] int`, no leading zeros) -/
 
